@@ -1282,6 +1282,25 @@ pub fn sessions_c16() -> Vec<Session> {
         name: "output-with-input",
         acts: vec![Write(4), Arrive(inp(b"k")), Poll(Some(0)), Write(3), Poll(Some(0))],
         allowed: vec![(Inject::Wake, 1)], stall_selects: 0, probe: false, kitty: false });
+    // output produced by a command handler that writes to the queue on the program's behalf (the kitty image
+    // handler: transmission + placement) belongs to the program's frame like any other output: frames are
+    // delimited by the program's flushes and polls only
+    v.push(Session {
+        name: "image-in-frame-then-drop",
+        acts: vec![DrawImage, Write(6), FramesDrop, Write(2), Poll(Some(0)), Poll(Some(0))],
+        allowed: vec![],
+        stall_selects: 0,
+        probe: true,
+        kitty: true,
+    });
+    v.push(Session {
+        name: "image-behind-frame-then-drop",
+        acts: vec![Write(3), Flush, DrawImage, Write(4), Flush, Write(2), FramesDrop, Poll(Some(0)), Poll(Some(0))],
+        allowed: vec![],
+        stall_selects: 0,
+        probe: true,
+        kitty: true,
+    });
     v
 }
 
@@ -1694,6 +1713,219 @@ pub fn successive_terminals_check() -> Result<(u64, Vec<(String, String)>), Stri
                     "a terminal was opened on a pty (device {rdev_a:#x}) whose other end was closed before its release; the next terminal, opened on a pty with the same device number but other line settings (variant {variant}), did not leave the settings it had found when it was released"
                 ),
             ));
+        }
+    }
+    Ok((runs, problems))
+}
+
+/// A real terminal object on a pty (no kernel model: real system calls) under the given environment; a harness
+/// thread plays the terminal emulator: it drains the master side, answers the DA1 query and - when `truecolor_reply`
+/// is set - answers the DECRQSS face query the way a true-colour terminal does. The commands are executed between
+/// two marker writes, each followed by a `|`; returns the colour depth the terminal object reports and the bytes the pty received between
+/// the markers.
+pub fn commands_on_real_terminal(term_env: &str, colorterm: Option<&str>, truecolor_reply: bool, cmds: &[TerminalCommand]) -> Result<(surf_n_term::encoder::ColorDepth, Vec<u8>), String> {
+    use std::sync::atomic::{AtomicBool, Ordering};
+    use std::sync::{Arc, Mutex};
+    std::env::set_var("TERM", term_env);
+    match colorterm {
+        Some(v) => std::env::set_var("COLORTERM", v),
+        None => std::env::remove_var("COLORTERM"),
+    }
+    std::env::remove_var("SURFNTERM");
+    let (master, slave) = open_pty()?;
+    let stop = Arc::new(AtomicBool::new(false));
+    let received: Arc<Mutex<Vec<u8>>> = Arc::new(Mutex::new(vec![]));
+    let mfd = master.as_raw_fd();
+    let peer = {
+        let stop = stop.clone();
+        let received = received.clone();
+        std::thread::spawn(move || {
+            let mut scanned = 0usize;
+            let mut buf = vec![0u8; 65536];
+            let da1: &[u8] = b"\x1b[c";
+            let face_query: &[u8] = b"\x1bP$qm\x1b\\";
+            loop {
+                let mut p = libc::pollfd { fd: mfd, events: libc::POLLIN, revents: 0 };
+                let r = unsafe { libc::poll(&mut p, 1, 10) };
+                if r > 0 && (p.revents & libc::POLLIN) != 0 {
+                    let n = unsafe { libc::read(mfd, buf.as_mut_ptr() as *mut libc::c_void, buf.len()) };
+                    if n > 0 {
+                        let mut g = received.lock().unwrap();
+                        g.extend_from_slice(&buf[..n as usize]);
+                        while scanned < g.len() {
+                            let rest = &g[scanned..];
+                            let reply: Option<(&[u8], usize)> = if rest.starts_with(da1) {
+                                Some((b"\x1b[?62;c", da1.len()))
+                            } else if truecolor_reply && rest.starts_with(face_query) {
+                                Some((b"\x1bP1$r0;48;2;1;2;3m\x1b\\", face_query.len()))
+                            } else if (da1.starts_with(rest) || face_query.starts_with(rest)) && rest.len() < face_query.len() {
+                                break; // may be the beginning of a query: wait for more
+                            } else {
+                                None
+                            };
+                            match reply {
+                                Some((bytes, skip)) => {
+                                    unsafe { libc::write(mfd, bytes.as_ptr() as *const libc::c_void, bytes.len()) };
+                                    scanned += skip;
+                                }
+                                None => scanned += 1,
+                            }
+                        }
+                        continue;
+                    }
+                }
+                if stop.load(Ordering::SeqCst) && r <= 0 {
+                    break;
+                }
+                if r > 0 && (p.revents & (libc::POLLHUP | libc::POLLERR)) != 0 && (p.revents & libc::POLLIN) == 0 {
+                    if stop.load(Ordering::SeqCst) {
+                        break;
+                    }
+                    std::thread::sleep(Duration::from_millis(1));
+                }
+            }
+        })
+    };
+    let finish = |e: String| -> String {
+        stop.store(true, Ordering::SeqCst);
+        e
+    };
+    let mut term = SystemTerminal::new_from_fd(slave).map_err(|e| finish(format!("{e:?}")))?;
+    let depth = term.capabilities().depth;
+    let wait_for = |term: &mut SystemTerminal, marker: &[u8]| -> Result<usize, String> {
+        for _ in 0..2000 {
+            let _ = term.poll(Some(Duration::from_millis(1)));
+            let g = received.lock().unwrap();
+            if let Some(at) = g.windows(marker.len()).rposition(|w| w == marker) {
+                return Ok(at);
+            }
+        }
+        Err(format!("marker {:?} never reached the pty", String::from_utf8_lossy(marker)))
+    };
+    let _ = term.write_all(b"<<BEGIN>>");
+    let begin = wait_for(&mut term, b"<<BEGIN>>").map_err(&finish)? + 9;
+    for cmd in cmds {
+        term.execute(cmd.clone()).map_err(|e| finish(format!("execute failed: {e:?}")))?;
+        let _ = term.write_all(b"|");
+    }
+    let _ = term.write_all(b"<<END>>");
+    let end = wait_for(&mut term, b"<<END>>").map_err(&finish)?;
+    drop(term);
+    stop.store(true, Ordering::SeqCst);
+    let _ = peer.join();
+    drop(master);
+    let g = received.lock().unwrap();
+    Ok((depth, g[begin..end].to_vec()))
+}
+
+/// Descriptor placements (no kernel model: real system calls). The caller of `new_from_fd` decides which
+/// descriptor number the tty has; the numbers of the descriptors the terminal allocates afterwards (signal pipe,
+/// waker pipe) depend on which numbers are free. All placements of a small family are run: the tty below / above
+/// / between the terminal's own descriptors and beyond the first word of a descriptor set. In every placement
+/// input written by the peer must be delivered as key events, pending output and the closing sequence must reach
+/// the peer and the line settings must be restored. Returns (runs, problems).
+pub fn descriptor_placement_check() -> Result<(u64, Vec<(String, String)>), String> {
+    prepare_process();
+    let mut problems: Vec<(String, String)> = vec![];
+    let mut note = |problems: &mut Vec<(String, String)>, k: &str, w: String| {
+        println!("PROBLEM {}", json!([k, w]));
+        problems.push((k.to_string(), w));
+    };
+    let mut runs = 0u64;
+    // (tty descriptor at least, number of free descriptor numbers left below it)
+    let mut placements: Vec<(Option<i32>, usize)> = vec![(None, 0)];
+    for holes in [usize::MAX, 0, 1, 2, 3, 4, 6] {
+        placements.push((Some(40), holes));
+    }
+    placements.push((Some(200), usize::MAX));
+    placements.push((Some(200), 2));
+    placements.push((Some(700), usize::MAX));
+    for (min_fd, holes) in placements {
+        let (master, slave) = open_pty()?;
+        let mut fillers: Vec<OwnedFd> = vec![];
+        let slave = match min_fd {
+            None => slave,
+            Some(min) => {
+                let fd = unsafe { libc::fcntl(slave.as_raw_fd(), libc::F_DUPFD_CLOEXEC, min) };
+                if fd < 0 {
+                    return Err(format!("F_DUPFD to {min} failed: {}", std::io::Error::last_os_error()));
+                }
+                drop(slave);
+                if holes != usize::MAX {
+                    // occupy every free number below the tty, then free `holes` of the lowest again
+                    loop {
+                        let f = unsafe { libc::open(b"/dev/null\0".as_ptr() as *const libc::c_char, libc::O_RDONLY | libc::O_CLOEXEC) };
+                        if f < 0 {
+                            return Err("opening a filler descriptor failed".into());
+                        }
+                        let o = unsafe { OwnedFd::from_raw_fd(f) };
+                        if f > fd {
+                            drop(o);
+                            break;
+                        }
+                        fillers.push(o);
+                    }
+                    for _ in 0..holes.min(fillers.len()) {
+                        fillers.remove(0);
+                    }
+                }
+                unsafe { OwnedFd::from_raw_fd(fd) }
+            }
+        };
+        let tty_no = slave.as_raw_fd();
+        let session = Session {
+            name: "descriptor-placement",
+            acts: vec![Act::Write(5), Act::Arrive(Inject::Input(b"a".to_vec())), Act::Poll(Some(400)), Act::Write(3), Act::Arrive(Inject::Input(b"b".to_vec())), Act::Poll(Some(400))],
+            allowed: vec![],
+            stall_selects: 0,
+            probe: false,
+            kitty: false,
+        };
+        let what = format!("tty passed to new_from_fd as descriptor {tty_no} ({} free numbers left below it)", if holes == usize::MAX { "all".to_string() } else { holes.to_string() });
+        println!("PLACEMENT-BEGIN {what}");
+        let result = std::panic::catch_unwind(std::panic::AssertUnwindSafe(|| conformance_run_on(master, slave, &session, 0)));
+        println!("PLACEMENT-END");
+        drop(fillers);
+        runs += 1;
+        let o = match result {
+            Ok(Ok(o)) => o,
+            Ok(Err(e)) => {
+                note(&mut problems, "placement:construct", format!("{what}: the terminal could not be opened: {e}"));
+                continue;
+            }
+            Err(_) => {
+                note(&mut problems, "placement:panic", format!("{what}: the session panicked"));
+                continue;
+            }
+        };
+        let keys: Vec<char> = o
+            .events
+            .iter()
+            .filter_map(|(_, r)| match r {
+                Ok(Some(TerminalEvent::Key(k))) => match k.name {
+                    surf_n_term::KeyName::Char(c) => Some(c),
+                    _ => Some('?'),
+                },
+                _ => None,
+            })
+            .collect();
+        if keys != vec!['a', 'b'] {
+            note(&mut problems, "placement:input-events", format!("{what}: the peer typed \"a\" and later \"b\", polls returned the keys {:?} (all results: {:?})", keys, o.events));
+        }
+        if let Some((_, Err(e))) = o.events.iter().find(|(_, r)| r.is_err()) {
+            note(&mut problems, "placement:poll-error", format!("{what}: poll failed: {e}"));
+        }
+        let app: Vec<u8> = o.app_chunks.iter().flat_map(|c| c.bytes.clone()).collect();
+        if !o.out.starts_with(&app) || app.len() != 8 {
+            note(&mut problems, "placement:output", format!("{what}: 8 bytes were written and flushed by polls, the peer received {:?}", crate::engine::util::esc(&o.out)));
+        }
+        let tail = &o.out[app.len().min(o.out.len())..];
+        let has = |needle: &[u8]| tail.windows(needle.len()).any(|w| w == needle);
+        if !(has(b"\x1b[?25h") && has(b"\x1b[?1000l")) {
+            note(&mut problems, "placement:epilogue", format!("{what}: the closing sequence did not reach the peer (after the application output: {:?})", crate::engine::util::esc(tail)));
+        }
+        if !o.termios_restored {
+            note(&mut problems, "placement:termios", format!("{what}: line settings were not restored"));
         }
     }
     Ok((runs, problems))
